@@ -136,7 +136,8 @@ def search(ctx, deep):
 
 # programs with a known result per horizon (results repeat the last entry)
 CLI_PROGS = [
-    ("#program initial. a. #program dynamic. b :- 'a. #program always. c :- 'b. #program final. :- not c.", ["UNSAT", "UNSAT", "SAT"]),
+    # c holds at state 2 only: satisfiable exactly at horizon 2 (the last entry repeats: UNSAT from horizon 3 on)
+    ("#program initial. a. #program dynamic. b :- 'a. #program always. c :- 'b. #program final. :- not c.", ["UNSAT", "UNSAT", "SAT", "UNSAT"]),
     ("#program initial. a. #program dynamic. b :- 'a. #program always. c :- 'b. :- c.", ["SAT", "SAT", "UNSAT"]),
     ("#program always. a.", ["SAT"]),
     ("#program always. :- not a.", ["UNSAT"]),
